@@ -149,6 +149,8 @@ impl WorkStealingQueue {
         if let Some(task) = self.steal_queue.lock().unwrap_or_else(|e| e.into_inner()).pop_front() {
             return Some(task);
         }
+        #[cfg(feature = "zipora_verif")]
+        crate::verif_hooks::sched_point(501);
 
         // Then try to steal from the local queue
         let mut local_queue = self.local_queue.lock().unwrap_or_else(|e| e.into_inner());
@@ -500,6 +502,63 @@ impl WorkStealingExecutor {
     /// Check if the executor is idle (no active or queued tasks)
     pub fn is_idle(&self) -> bool {
         self.stats.active_tasks.load(Ordering::Relaxed) == 0 && self.total_queued() == 0
+    }
+}
+
+/// Access shim for verification harnesses: an executor whose worker loops are not
+/// spawned (no tokio runtime), plus forwarders to the private `find_task` and to the
+/// per-worker `balance`, so that a harness can play the workers' steps itself.
+#[cfg(feature = "zipora_verif")]
+#[doc(hidden)]
+pub mod verif_access {
+    use super::*;
+
+    /// Same fields as `WorkStealingExecutor::new` builds, without `tokio::spawn`.
+    pub fn new_threadless(num_workers: usize, queue_capacity: usize) -> WorkStealingExecutor {
+        let mut workers = Vec::with_capacity(num_workers);
+        let mut queues = Vec::with_capacity(num_workers);
+        for i in 0..num_workers {
+            let queue = Arc::new(WorkStealingQueue::new(i, queue_capacity));
+            queues.push(queue.clone());
+            workers.push(WorkerThread { id: i, handle: None, queue });
+        }
+        WorkStealingExecutor {
+            workers,
+            queues,
+            global_queue: Arc::new(Mutex::new(VecDeque::new())),
+            stats: Arc::new(ExecutorStatsInner {
+                total_executed: AtomicUsize::new(0),
+                active_tasks: AtomicUsize::new(0),
+                active_workers: AtomicUsize::new(num_workers),
+                total_steals: AtomicUsize::new(0),
+                total_execution_time_us: AtomicUsize::new(0),
+            }),
+            shutdown: Arc::new(AtomicBool::new(false)),
+            next_worker: AtomicUsize::new(0),
+        }
+    }
+
+    /// What `worker_loop(worker_id, ..)` does to obtain its next task.
+    pub fn find_task_for(exec: &WorkStealingExecutor, worker_id: usize) -> Option<Box<dyn Task>> {
+        let my_queue = &exec.queues[worker_id];
+        let other_queues: Vec<_> = exec
+            .queues
+            .iter()
+            .enumerate()
+            .filter(|(id, _)| *id != worker_id)
+            .map(|(_, queue)| queue.clone())
+            .collect();
+        WorkStealingExecutor::find_task(my_queue, &other_queues, &exec.global_queue, &exec.stats)
+    }
+
+    /// What `worker_loop(worker_id, ..)` does periodically.
+    pub fn balance_for(exec: &WorkStealingExecutor, worker_id: usize) {
+        exec.queues[worker_id].balance()
+    }
+
+    /// Worker `worker_id`'s queue.
+    pub fn queue_of(exec: &WorkStealingExecutor, worker_id: usize) -> &WorkStealingQueue {
+        &exec.queues[worker_id]
     }
 }
 
